@@ -11,7 +11,7 @@ CLAIMED = {
   note=TRUST + "models/zmodel.c (z_number as a 128-bit integer; its / and % uninterpreted with sign/magnitude axioms; proved of lib/bignums.cpp against a GMP model under C20), models/qmodel.c. wrapped_interval: proved per enumerated bit width only (widths listed in the evidence), wrapint callees replaced by their (proved) contracts. Not covered: wrapint::hash/write/get_*_str/string constructor, wrapped_interval_domain.hpp."),
  'C08': dict(
   text="Proof of soundness, with arbitrary ghost concrete operands, of every operation of bound<z>, interval<z>, sign, constant, boolean_value, small_range congruence and the interval-congruence reduced product, and of exactness (tightness) of interval + - * unary-, join and meet as 'result equals the textbook least interval'. Non-linear facts (monotonicity of * and truncating /) are lemma schemas over the mathematical integers discharged by z3 and cvc5 on every run and used as explicit instances.",
-  note=TRUST + "models/zmodel.c integer model of z_number with inputs bounded by 2^40 (larger magnitudes assumed to behave alike); lemma files lemmas/*.smt2; interval::operator/ recursion assumed to terminate (enforce-contract-rec); interval::Shl proved per shift amount 0..58; q_number instantiations not covered; disjunctive intervals (dis_interval) only where unit dis_interval is enabled, bounded (<= 2 disjuncts); congruence meet/mul/div/rem/Shl bounded (small moduli)."),
+  note=TRUST + "models/zmodel.c integer model of z_number with inputs bounded by 2^40 (larger magnitudes assumed to behave alike); lemma files lemmas/*.smt2; interval::operator/ recursion assumed to terminate (enforce-contract-rec); interval::Shl proved per shift amount 0..58; q_number instantiations not covered; disjunctive intervals (unit dis_interval): BOUNDED (<= 2 disjuncts per operand) and only constructors / normalisation, is_bottom, is_top, approx, ==, <= and meet - join, widening, narrowing and the arithmetic of dis_interval have no decided check; congruence meet/mul/div/rem/Shl bounded (small moduli)."),
  'C04': dict(
   text="Proof, for the scalar lattices (interval, sign, constant, boolean_value, small_range; congruence and wrapped_interval where enabled) that <= answers yes on the same object, with bottom on the left and top on the right, that a yes implies inclusion of concretisations (ghost point), that join/meet contain union/intersection, and that is_bottom/is_top agree with bottom()/top(); and for the environment layer (separate_domain, discrete_domain) proof of the bottom/top bookkeeping of <=, ==, |, &, ||, &&, set, at, forget and of the operation objects GIVEN finite-map contracts of the patricia trees; plus (unit pttree, BOUNDED) the real tree::compare on small trees.",
   note=TRUST + "The patricia-tree algorithms (insert/remove/merge/compare/lookup) are ASSUMED to implement finite maps (uninterpreted observers); graph domains (split_dbm, split_oct, sparse_dbm), products, powerset are not covered."),
@@ -22,8 +22,8 @@ CLAIMED = {
   text="Second sentence of the property only: proof that interleaved_fwd_fixpoint_iterator::extrapolate returns exactly the JOIN of its arguments (one application, nothing else) while iteration <= widening_delay, and otherwise the widening (or the widening with the thresholds of that loop head when thresholds are enabled), and that refine() applies the meet in the first descending iteration and the narrowing afterwards; the value type is an opaque ghost whose lattice operations are distinct uninterpreted symbols, so 'equal results' means 'this operation, these operands, once'. Plus (unit fixvisit, BOUNDED, ghost call-order monitor on the real wto_iterator::visit(wto_cycle_t&) / visit(wto_vertex_t&)): extrapolate is called with iteration = 1, 2, ... = the number of times the head has been iterated, only after new_pre <= pre answered no on exactly the values handed over; the first pass starts from the join of exactly the predecessors that are not nested deeper than the head (or the start block's stored value), strengthened by the head's assumption; components are skipped until the start block is met; refine gets iteration 1, 2, ... and at most descending_iterations calls; the stored pre-invariant of the head ends as the post-fixpoint or its last refinement. The first sentence as a whole (the iterator returns the exact least solution on finite-height types) additionally needs the WTO (C07) and is NOT decided.",
   note=TRUST + "Assumed: unordered_map::find on the thresholds table is a finite-map lookup (model); the table holds an entry for the head when thresholds are on; logging/statistics are effect-free (CrabVerbosity == 0 is a precondition). Unit fixvisit: bounded (loops unwound: <= 3 ascending passes, <= 2 descending, <= 2 predecessors, cycle body empty or one vertex), invariant tables / compute_post / WTO nesting assumed, no native replay. Not covered: the WTO construction, initialize_invariant_tables()/run(), nested cycles, a start block that is itself a loop head (observed to lose the initial value; outside the property as stated)."),
  'C20': dict(
-  text="Proof that every arithmetic / comparison / bitwise / shift / conversion member of ikos::z_number and q_number (lib/bignums.cpp) is the mathematical operation GIVEN GMP's documented behaviour of each __gmpz_*/__gmpq_* entry point it calls (truncating / and %, floor >>, two's-complement bitwise operations on either sign, int64/uint64 conversions in all branches, floor/ceil rounding of rationals, fill_ones with an inductive loop contract), and that crab::safe_i64 (lib/safeint.cpp) returns the exact result whenever it returns and reports overflow exactly when the 128-bit result does not fit; plus (unit lincst) constraint negation / tautology / contradiction tests over an abstract valuation, and (bounded, <= 2 terms, real boost flat_map) the evaluation homomorphism of linear_expression sum / difference / scaling / renaming.",
-  note=TRUST + "models/gmpmodel.c: GMP entry points modelled with their documented meaning on 2-limb values (|v| < 2^126; products, quotients and rational canonicalisation partly uninterpreted with axioms); magnitudes beyond are assumed to behave alike. Not decided: exact STRING round trips (get_str / string constructors are GMP externals), hash, get_double, linear_constraint_system::normalize. safe_i64 division requires a non-zero divisor."),
+  text="Proof that every arithmetic / comparison / bitwise / shift / conversion member of ikos::z_number and q_number (lib/bignums.cpp) is the mathematical operation GIVEN GMP's documented behaviour of each __gmpz_*/__gmpq_* entry point it calls (truncating / and %, floor >>, two's-complement bitwise operations on either sign, int64/uint64 conversions in all branches, floor/ceil rounding of rationals, fill_ones with an inductive loop contract), and that crab::safe_i64 (lib/safeint.cpp) returns the exact result whenever it returns and reports overflow exactly when the 128-bit result does not fit; plus (unit lincst) constraint negation / tautology / contradiction tests over an abstract valuation, and (bounded, <= 2 terms, real boost flat_map) the evaluation homomorphism of linear_expression sum / difference / scaling / renaming; linear_constraint_system operator+= / is_false / is_true (bounded, <= 2 constraints of <= 1 term).",
+  note=TRUST + "models/gmpmodel.c: GMP entry points modelled with their documented meaning on 2-limb values (|v| < 2^126; products, quotients and rational canonicalisation partly uninterpreted with axioms); magnitudes beyond are assumed to behave alike. Not decided: exact STRING round trips (get_str / string constructors are GMP externals), hash, get_double; linear_constraint_system::normalize() is NOT decided (contract written, no back end decides it even for 2 constraints). safe_i64 division requires a non-zero divisor."),
  'C19': dict(
   text="Proof for all 64-bit inputs of the patricia bit kernels (highest_bit with an inductive loop contract, mask, zero_bit, match_prefix, compute_branching_bit) and of the routing lemmas that make insert/lookup/merge route consistently and keep joined nodes well formed (incl. the 2^63 corner), and proof of the separate_domain / discrete_domain / patricia_tree_set glue (set, at, forget, <=, ==, join/meet/widening/narrowing bookkeeping, operation objects, membership, subset) over ASSUMED finite-map contracts of the tree algorithms; plus (unit pttree, BOUNDED) the real tree algorithms insert / lookup / remove / merge_with / leq / transform / iteration run on small trees (<= 2 symbolic-key bindings per tree, keys < 8) against a model map.",
   note=TRUST + "The tree algorithms (insert, remove, merge, compare, transform, iteration over shared_ptr nodes with virtual dispatch) are assumed in unit sepdom and checked only on small instances in unit pttree (bounded, reference counting not modelled): a change inside merge/compare that needs more than 2 bindings per tree or keys >= 8 to manifest is not detected in the quick tier."),
